@@ -255,6 +255,16 @@ def s3_cases(tier: str, n: grammar.Names) -> list[tuple[tuple, dict[str, Any]]]:
                 ("for", "x", V("a"), (("offset", "continue"),), (("out", V("x")),), (("text", "none"),)),
             )  # fmt: skip
             cases.append((prog, {"long": long_, "short": short}))
+    # offset: continue belongs to one (variable, iterable) pair: names with hyphens whose texts join to the same string
+    # (`a-b` over `c`, `a` over `b-c`) are different loops
+    for first in ((("limit", I(1)),), (("limit", I(2)),), ()):
+        prog = (
+            ("for", "a-b", V("c"), first, (("out", V("a-b")),), None), ("text", "|"),
+            ("for", "a", V("b-c"), (("offset", "continue"),), (("out", V("a")),), (("text", "none"),)), ("text", "|"),
+            ("for", "a-b", V("c"), (("offset", "continue"),), (("out", V("a-b")),), (("text", "none"),)), ("text", "|"),
+            ("for", "a", V("b-c"), (("offset", "continue"),), (("out", V("a")),), (("text", "none"),)),
+        )
+        cases.append((prog, {"c": [1, 2, 3], "b-c": [7, 8, 9]}))
     # cycle groups are told apart by how their items are WRITTEN: a variable and a string of the same spelling, numbers
     # with equal hashes (-1 / -2) or equal values (1 / 1.0), and the two quote styles of one string
     T = ("text", "|")
